@@ -154,6 +154,56 @@ except ValueError:
 return False
 '''
 
+MULTI_PRE = HEADER + '''
+from mappyfile.ordereddict import CaseInsensitiveOrderedDict as CI
+from engine import tsp
+PP = tsp.printer(tsp.ALL_TYPES, indent=4, quote='"')
+
+
+def okc(c):
+    return (c >= 32) & (c < 0x3000) & (c != 34) & (c != 39) & (c != 92)
+
+
+def okname(c):
+    return ((c >= 97) & (c <= 122)) | ((c >= 48) & (c <= 57)) | (c == 95)
+
+
+def D(t):
+    d = CI(CI)
+    d["__type__"] = t
+    return d
+'''
+
+MULTI = '''
+# one document in which the same keyword occurs in objects of different types with different lexical rules; both visiting orders
+s = {S}
+b = "[" + {B} + "]"
+ex = "([" + {B} + "] = 1)"
+st = D("style"); st["geomtransform"] = "bbox"
+lb = D("label"); lb["position"] = b
+cl = D("class")
+cluster = D("cluster"); cluster["group"] = ex
+ly = D("layer")
+legend = D("legend"); legend["position"] = "ll"
+m = D("map")
+if rev:
+    cl["labels"] = [lb]; cl["styles"] = [st]
+    ly["classes"] = [cl]; ly["cluster"] = cluster; ly["geomtransform"] = ex; ly["group"] = s
+    m["layers"] = [ly]; m["legend"] = legend
+    exp = ["MAP", "    LAYER", "        CLASS", "            LABEL", "                POSITION " + b, "            END", "            STYLE",
+           "                GEOMTRANSFORM BBOX", "            END", "        END", "        CLUSTER", "            GROUP " + ex, "        END",
+           "        GEOMTRANSFORM " + ex, '        GROUP "' + s + '"', "    END", "    LEGEND", "        POSITION LL", "    END", "END"]
+else:
+    cl["styles"] = [st]; cl["labels"] = [lb]
+    ly["group"] = s; ly["geomtransform"] = ex; ly["cluster"] = cluster; ly["classes"] = [cl]
+    m["legend"] = legend; m["layers"] = [ly]
+    exp = ["MAP", "    LEGEND", "        POSITION LL", "    END", "    LAYER", '        GROUP "' + s + '"', "        GEOMTRANSFORM " + ex, "        CLUSTER",
+           "            GROUP " + ex, "        END", "        CLASS", "            STYLE", "                GEOMTRANSFORM BBOX", "            END",
+           "            LABEL", "                POSITION " + b, "            END", "        END", "    END", "END"]
+lines = PP._format(m)
+return lines == exp and PP._format(m) == exp
+'''
+
 INFO = {
     "explanation": "C03: the real PrettyPrinter._format / format_value / check_options_list / Quoter run under CrossHair on dicts built "
                    "directly for every (object type, keyword slot group) with symbolic values, compared line-for-line with a rendering "
@@ -321,5 +371,12 @@ def obligations(tier, seed):
             obs.append(Ob(name=nm, source=src, pct=500, timeout=650,
                           meta={"desc": f"{t}: {len(keys)} keyword slot(s) of kind {name}; symbolic value; full line list vs rendering rule",
                                 "bounds": {"keys": len(keys), "variant": suffix}, "functions": ["mappyfile.pprint.PrettyPrinter._format"]}))
-    # the list expression {a,b} exists for the keyword EXPRESSION only
+    # the same keyword in objects of different types (GROUP, GEOMTRANSFORM, POSITION) inside one document, both visiting orders
+    cs = chars("c", 2) + chars("n", 2)
+    pre = conj([f"okc({n})" for n, _ in chars("c", 2)] + [f"okname({n})" for n, _ in chars("n", 2)] + ["(n0 >= 97) & (n0 <= 122)", "(c0 != 40) & (c0 != 47) & (c0 != 91) & (c0 != 123) & (c0 > 32)"])
+    for rev in (0, 1):
+        src = MULTI_PRE + harness("h", cs + [("rev", "bool")], conj([pre, "rev" if rev else "not rev"]), MULTI.format(S=chr_expr("c", 2), B=chr_expr("n", 2)))
+        obs.append(Ob(name=f"C03-MULTI/shared-keywords.rev{rev}", source=src, pct=600, timeout=700,
+                      meta={"desc": "GROUP / GEOMTRANSFORM / POSITION in LAYER, CLUSTER, STYLE, LABEL, LEGEND within one document: each printed by its own object's schema rule, in either visiting order, twice",
+                            "functions": ["PrettyPrinter._format", "PrettyPrinter.get_attribute_properties", "PrettyPrinter.format_value"]}))
     return obs
